@@ -294,3 +294,40 @@ Theorem update_ids_is_source : forall (len_of : Z -> nat) t m a strict inplace,
   end.
 Proof. exact update_ids_bridge. Qed.
 Print Assumptions update_ids_is_source.
+
+(* ---- translator tie T21: Gen/ReorderGen.v is regenerated from biom/table.py (Table.sort_order, sort, copy,
+   transpose, align_to) by tools/py2v_ord on every check; generated = hand model for all inputs *)
+From BiomV Require Import Gen.OrdPrelude Gen.ReorderGen Proofs.GenBridgeReorderProofs.
+
+Theorem sort_order_is_source : forall order a t,
+  sort_order_gen t order (amode_of a) = Reorder.sort_order order a t.
+Proof. exact sort_order_gen_is_source. Qed.
+Print Assumptions sort_order_is_source.
+
+Theorem sort_order_unknown_axis_is_source : forall order t m,
+  axis_of m = None -> sort_order_gen t order m = RErr E_UNKNOWN.
+Proof. exact sort_order_gen_unknown_axis. Qed.
+Print Assumptions sort_order_unknown_axis_is_source.
+
+Theorem sort_is_source : forall sortf a t,
+  sort_gen t sortf (amode_of a) = Reorder.sort sortf a t.
+Proof. exact sort_gen_is_source. Qed.
+Print Assumptions sort_is_source.
+
+Theorem copy_is_source : forall t, copy_gen t = errcheck (Reorder.copy t).
+Proof. exact copy_gen_is_source. Qed.
+Print Assumptions copy_is_source.
+
+Theorem copy_wf_is_source : forall t,
+  zdup (oids t) || zdup (sids t) = false -> copy_gen t = ROk (Reorder.copy t).
+Proof. exact copy_gen_wf_is_source. Qed.
+Print Assumptions copy_wf_is_source.
+
+Theorem transpose_is_source : forall fmt t, transpose_gen fmt t = errcheck (transpose_c t).
+Proof. exact transpose_gen_is_source. Qed.
+Print Assumptions transpose_is_source.
+
+Theorem align_to_is_source : forall other m t,
+  align_to_gen t other m = Reorder.align_to other m t.
+Proof. exact align_to_gen_is_source. Qed.
+Print Assumptions align_to_is_source.
